@@ -23,6 +23,7 @@ type Env struct {
 	pkg   *types.Package
 	where string
 	oldNames map[string]TV // names as of entry (parameters)
+	head     *State        // state at the head of the current iteration, for atHead(...) in loop step clauses
 	resolve  func(name string) (TV, bool)
 	resolveSt func(st *State, name string) (TV, bool) // the same, read in a given state (old(x))
 }
@@ -673,6 +674,15 @@ func (e *Enc) evalCall(env *Env, n *ast.CallExpr) TV {
 		for k, v := range env.oldNames {
 			c.names[k] = v
 		}
+		return e.eval(c, n.Args[0])
+	case "atHead":
+		// atHead(x): x as it was at the head of the iteration that just ended
+		// (loop step clauses only)
+		if env.head == nil {
+			e.evalFail(env, "atHead() is only available in loop step clauses")
+		}
+		c := env.child()
+		c.st = env.head
 		return e.eval(c, n.Args[0])
 	case "len":
 		a := e.eval(env, n.Args[0])
